@@ -900,6 +900,9 @@ func (rles *RLEs) UnmarshalBinaryReader(r io.Reader, numRLEs uint32) error {
 // TODO: If this is a bottleneck, employ better than this brute force insertion method.
 func (rles *RLEs) Add(rles2 RLEs) (voxelsAdded int64) {
 	for _, rle2 := range rles2 {
+		// Count the voxels of rle2 that no current run holds before the receiver is modified:
+		// the extension below may bridge several runs, which the old in-line count ignored.
+		voxelsAdded += rles.uncoveredVoxels(rle2)
 		var found bool
 		for i, rle := range *rles {
 			// If this rle has same z and y, modify the RLE, else just add rle.
@@ -915,11 +918,9 @@ func (rles *RLEs) Add(rles2 RLEs) (voxelsAdded int64) {
 					continue
 				}
 				if x0 > cur_x0 {
-					voxelsAdded += int64(x0 - cur_x0)
 					x0 = cur_x0
 				}
 				if x1 < cur_x1 {
-					voxelsAdded += int64(cur_x1 - x1)
 					x1 = cur_x1
 				}
 				rle.start[0] = x0
@@ -931,10 +932,27 @@ func (rles *RLEs) Add(rles2 RLEs) (voxelsAdded int64) {
 		}
 		if !found {
 			*rles = append(*rles, rle2)
-			voxelsAdded += int64(rle2.length)
 		}
 	}
 	return
+}
+
+// uncoveredVoxels returns the number of voxels of the given run that are in none of the receiver's runs.
+func (rles RLEs) uncoveredVoxels(rle RLE) int64 {
+	frags := RLEs{rle}
+	for _, r := range rles {
+		var next RLEs
+		for _, f := range frags {
+			if cut := f.Excise(r); cut == nil {
+				next = append(next, f)
+			} else {
+				next = append(next, cut...)
+			}
+		}
+		frags = next
+	}
+	numVoxels, _ := frags.Stats()
+	return int64(numVoxels)
 }
 
 // Stats returns the total number of voxels and runs.
